@@ -1,36 +1,307 @@
 package h
 
 import (
+	"bytes"
+	"unicode/utf8"
+
 	"github.com/yuin/goldmark/util"
 	"verifh/vp"
 )
 
-// H_c19_escape_html: EscapeHTML output has no raw < > " and every & starts one of the four references.
+func isHex(b byte) bool {
+	return vp.Or(vp.InRange(b, '0', '9'), vp.Or(vp.InRange(b, 'a', 'f'), vp.InRange(b, 'A', 'F')))
+}
+
+// alphabetAssume restricts every byte to the given set when the "alpha" parameter is non-empty.
+func alphabetAssume(b []byte) {
+	if a := vp.ParamStr("alpha", ""); a != "" {
+		for i := range b {
+			vp.Assume(vp.InSet(b[i], a))
+		}
+	}
+}
+
+// H_c19_escape_html: no raw < > ", every & starts one of the four references, decode(out) == in.
 func H_c19_escape_html() {
 	n := vp.ParamInt("n", 3)
 	in := vp.Bytes("in", n)
+	alphabetAssume(in)
+	keep := append([]byte(nil), in...)
 	vp.Observe("in", in)
 	out := util.EscapeHTML(in)
 	vp.Observe("out", out)
-	for i := range out {
+	vp.Assert(vp.EqBytes(in, keep), "input modified")
+	var dec []byte
+	for i := 0; i < len(out); {
 		vp.Assert(out[i] != '<', "raw <")
 		vp.Assert(out[i] != '>', "raw >")
 		vp.Assert(out[i] != '"', "raw quote")
+		if out[i] == '&' {
+			rest := out[i:]
+			switch {
+			case bytes.HasPrefix(rest, []byte("&lt;")):
+				dec = append(dec, '<')
+				i += 4
+			case bytes.HasPrefix(rest, []byte("&gt;")):
+				dec = append(dec, '>')
+				i += 4
+			case bytes.HasPrefix(rest, []byte("&amp;")):
+				dec = append(dec, '&')
+				i += 5
+			case bytes.HasPrefix(rest, []byte("&quot;")):
+				dec = append(dec, '"')
+				i += 6
+			default:
+				vp.Fail("bare &")
+				return
+			}
+			continue
+		}
+		dec = append(dec, out[i])
+		i++
+	}
+	vp.Assert(vp.EqBytes(dec, keep), "decode(EscapeHTML(x)) != x")
+	vp.Reach("done")
+}
+
+// H_c19_urlescape: laws of URLEscape(x, false).
+func H_c19_urlescape() {
+	n := vp.ParamInt("n", 3)
+	in := vp.Bytes("in", n)
+	alphabetAssume(in)
+	keep := append([]byte(nil), in...)
+	vp.Observe("in", in)
+	out := util.URLEscape(in, false)
+	vp.Observe("out", out)
+	vp.Assert(vp.EqBytes(in, keep), "input modified")
+	for i := range out {
+		vp.Assert(out[i] > 0x20, "space or control byte in output")
+		vp.Assert(out[i] != '"', "raw quote in output")
+		vp.Assert(out[i] != '<', "raw < in output")
+		vp.Assert(out[i] != '>', "raw > in output")
+		vp.Assert(out[i] != 0x7f, "DEL in output")
+		if i+2 < len(out) {
+			vp.Assert(vp.Implies(out[i] == '%', vp.And(isHex(out[i+1]), isHex(out[i+2]))), "% not followed by two hex digits")
+		} else {
+			vp.Assert(out[i] != '%', "% not followed by two hex digits")
+		}
+	}
+	if utf8.Valid(keep) {
+		vp.Reach("valid-utf8")
+		for i := range out {
+			vp.Assert(out[i] < 0x80, "non-ASCII output for valid UTF-8 input")
+		}
+	}
+	out2 := util.URLEscape(append([]byte(nil), out...), false)
+	vp.Assert(vp.EqBytes(out2, out), "URLEscape not idempotent")
+	vp.Reach("done")
+}
+
+// H_c19_urlescape_triple: an existing %XX triple (symbolic hex digits) with symbolic neighbours is preserved.
+func H_c19_urlescape_triple() {
+	pre := vp.Bytes("pre", vp.ParamInt("pre", 1))
+	post := vp.Bytes("post", vp.ParamInt("post", 1))
+	h := vp.Bytes("h", 2)
+	vp.Assume(isHex(h[0]))
+	vp.Assume(isHex(h[1]))
+	for _, b := range pre {
+		vp.Assume(vp.InRange(b, 'a', 'z'))
+	}
+	for _, b := range post {
+		vp.Assume(vp.InRange(b, 'a', 'z'))
+	}
+	in := append(append(append(append([]byte{}, pre...), '%'), h...), post...)
+	vp.Observe("in", in)
+	out := util.URLEscape(in, false)
+	vp.Observe("out", out)
+	vp.Assert(vp.EqBytes(out, in), "%XX triple not preserved")
+	vp.Reach("done")
+}
+
+func hexVal(b byte) int {
+	d := int(b)
+	return vp.IteInt(vp.InRange(b, '0', '9'), d-'0', vp.IteInt(vp.InRange(b, 'a', 'f'), d-'a'+10, d-'A'+10))
+}
+
+func expectRune(v int) []byte {
+	bad := vp.Or(v == 0, vp.Or(v > 0x10FFFF, vp.And(v >= 0xD800, v <= 0xDFFF)))
+	r := rune(vp.IteInt(bad, 0xFFFD, v))
+	return utf8.AppendRune(nil, r)
+}
+
+// H_c19_numref_hex: "&#x" h{1..k} ";" resolves to the UTF-8 encoding of the code point, U+FFFD when out of range.
+func H_c19_numref_hex() {
+	k := vp.ParamInt("k", 2)
+	d := vp.Bytes("d", k)
+	v := 0
+	for i := range d {
+		vp.Assume(isHex(d[i]))
+		v = v*16 + hexVal(d[i])
+	}
+	x := vp.Byte("x")
+	vp.Assume(vp.InSet(x, "xX"))
+	in := append(append([]byte{'&', '#', x}, d...), ';')
+	vp.Observe("in", in)
+	out := util.ResolveNumericReferences(in)
+	vp.Observe("out", out)
+	vp.Assert(utf8.Valid(out), "output is not valid UTF-8")
+	vp.Assert(vp.EqBytes(out, expectRune(v)), "hex reference resolved to the wrong bytes")
+	out2 := util.URLEscape(in, true)
+	vp.Assert(utf8.Valid(out2), "URLEscape(resolve) output is not valid UTF-8")
+	vp.Reach("done")
+}
+
+// H_c19_numref_dec: "&#" d{1..k} ";" without a leading zero.
+func H_c19_numref_dec() {
+	k := vp.ParamInt("k", 2)
+	d := vp.Bytes("d", k)
+	v := 0
+	for i := range d {
+		vp.Assume(vp.InRange(d[i], '0', '9'))
+		v = v*10 + int(d[i]-'0')
+	}
+	if vp.ParamInt("leadzero", 0) == 0 {
+		vp.Assume(d[0] != '0')
+	}
+	in := append(append([]byte{'&', '#'}, d...), ';')
+	vp.Observe("in", in)
+	out := util.ResolveNumericReferences(in)
+	vp.Observe("out", out)
+	vp.Assert(utf8.Valid(out), "output is not valid UTF-8")
+	if vp.ParamInt("leadzero", 0) == 0 {
+		vp.Assert(vp.EqBytes(out, expectRune(v)), "decimal reference resolved to the wrong bytes")
 	}
 	vp.Reach("done")
 }
 
-func H_c19_urlescape() {
+// H_c19_resolvers_utf8: on free input, resolvers keep valid UTF-8 valid and never modify their argument.
+func H_c19_resolvers_utf8() {
 	n := vp.ParamInt("n", 3)
 	in := vp.Bytes("in", n)
+	alphabetAssume(in)
+	keep := append([]byte(nil), in...)
 	vp.Observe("in", in)
-	out := util.URLEscape(in, false)
+	valid := utf8.Valid(keep)
+	o1 := util.UnescapePunctuations(in)
+	o2 := util.ResolveNumericReferences(in)
+	o3 := util.ResolveEntityNames(in)
+	o4 := util.URLEscape(in, true)
+	vp.Assert(vp.EqBytes(in, keep), "input modified")
+	if valid {
+		vp.Reach("valid-utf8")
+		vp.Assert(utf8.Valid(o1), "UnescapePunctuations broke UTF-8")
+		vp.Assert(utf8.Valid(o2), "ResolveNumericReferences broke UTF-8")
+		vp.Assert(utf8.Valid(o3), "ResolveEntityNames broke UTF-8")
+		vp.Assert(utf8.Valid(o4), "URLEscape(resolve) broke UTF-8")
+	}
+	vp.Reach("done")
+}
+
+// H_c19_entity_name: "&" name ";" with symbolic letters: output valid UTF-8, unknown names unchanged.
+func H_c19_entity_name() {
+	k := vp.ParamInt("k", 2)
+	d := vp.Bytes("d", k)
+	for i := range d {
+		vp.Assume(vp.Or(vp.InRange(d[i], 'a', 'z'), vp.InRange(d[i], 'A', 'Z')))
+	}
+	in := append(append([]byte{'&'}, d...), ';')
+	vp.Observe("in", in)
+	out := util.ResolveEntityNames(in)
 	vp.Observe("out", out)
-	for i := range out {
-		vp.Assert(out[i] > 0x20, "space or control byte")
-		vp.Assert(out[i] != '"', "raw quote")
-		vp.Assert(out[i] != '<', "raw <")
-		vp.Assert(out[i] != '>', "raw >")
+	vp.Assert(utf8.Valid(out), "output is not valid UTF-8")
+	vp.Assert(len(out) > 0, "entity resolved to nothing")
+	vp.Reach("done")
+}
+
+// H_c19_linkref: label normalisation is idempotent and insensitive to ASCII case and whitespace runs.
+func H_c19_linkref() {
+	n := vp.ParamInt("n", 3)
+	in := vp.Bytes("in", n)
+	alphabetAssume(in)
+	vp.Observe("in", in)
+	keep := append([]byte(nil), in...)
+	r1 := util.ToLinkReference(in)
+	vp.Assert(vp.EqBytes(in, keep), "input modified")
+	r2 := util.ToLinkReference([]byte(r1))
+	vp.Assert(vp.EqString(r1, r2), "ToLinkReference not idempotent")
+	// case flip of ASCII letters chosen by symbolic bits
+	flip := make([]byte, n)
+	for i := range flip {
+		isLetter := vp.Or(vp.InRange(keep[i], 'a', 'z'), vp.InRange(keep[i], 'A', 'Z'))
+		f := vp.Bool("flip")
+		flip[i] = vp.IteByte(vp.And(isLetter, f), keep[i]^0x20, keep[i])
+	}
+	r3 := util.ToLinkReference(flip)
+	vp.Assert(vp.EqString(r1, r3), "labels differing in ASCII case normalise differently")
+	// every space doubled / replaced by tab or newline
+	var ws []byte
+	wsb := vp.Byte("ws")
+	vp.Assume(vp.InSet(wsb, " \t\n"))
+	for i := range keep {
+		ws = append(ws, keep[i])
+		if keep[i] == ' ' {
+			ws = append(ws, wsb)
+		}
+	}
+	r4 := util.ToLinkReference(ws)
+	vp.Assert(vp.EqString(r1, r4), "labels differing in whitespace runs normalise differently")
+	vp.Reach("done")
+}
+
+// H_c19_bytesfilter: a BytesFilter behaves as a set; filters derived with Extend are independent
+// of their parent and of their siblings. History of k operations with symbolic keys.
+func H_c19_bytesfilter() {
+	alpha := vp.ParamStr("alpha", "a!\xa1\xe1b")
+	nkeys := vp.ParamInt("keys", 5)
+	klen := vp.ParamInt("klen", 1)
+	base := vp.ParamInt("base", 3)
+	keys := make([][]byte, nkeys)
+	for i := range keys {
+		keys[i] = vp.Bytes("k", klen)
+		for _, b := range keys[i] {
+			vp.Assume(vp.InSet(b, alpha))
+		}
+	}
+	vp.Observe("k0", keys[0])
+	// model: list of member keys per filter
+	type fm struct {
+		f util.BytesFilter
+		m [][]byte
+	}
+	member := func(m [][]byte, k []byte) bool {
+		r := false
+		for _, e := range m {
+			r = vp.Or(r, vp.EqBytes(e, k))
+		}
+		return r
+	}
+	check := func(x *fm, tag string) {
+		for _, k := range keys {
+			vp.Assert(x.f.Contains(k) == member(x.m, k), tag)
+		}
+	}
+	// The alphabet is chosen so that several one-byte keys fall into one hash bucket
+	// (bytesHash(c) % 64 == (37+c) % 64: 'a', '!', 0xa1, 0xe1 collide), so that bucket slices
+	// reach a length with spare capacity, which is where shared backing arrays show.
+	parent := &fm{f: util.NewBytesFilter()}
+	for i := 0; i < base; i++ {
+		parent.f.Add(keys[i])
+		parent.m = append(parent.m, keys[i])
+	}
+	check(parent, "parent after Add")
+	c1 := &fm{f: parent.f.Extend(keys[base]), m: append(append([][]byte{}, parent.m...), keys[base])}
+	check(c1, "child1 after Extend")
+	check(parent, "parent changed by Extend")
+	c2 := &fm{f: parent.f.Extend(keys[base+1]), m: append(append([][]byte{}, parent.m...), keys[base+1])}
+	check(c2, "child2 after Extend")
+	check(c1, "child1 changed by sibling Extend")
+	check(parent, "parent changed by second Extend")
+	if nkeys > base+2 {
+		c1.f.Add(keys[base+2])
+		c1.m = append(c1.m, keys[base+2])
+		check(c1, "child1 after Add")
+		check(c2, "child2 changed by sibling Add")
+		check(parent, "parent changed by child Add")
 	}
 	vp.Reach("done")
 }
@@ -38,4 +309,11 @@ func H_c19_urlescape() {
 func init() {
 	reg("H_c19_escape_html", H_c19_escape_html)
 	reg("H_c19_urlescape", H_c19_urlescape)
+	reg("H_c19_urlescape_triple", H_c19_urlescape_triple)
+	reg("H_c19_numref_hex", H_c19_numref_hex)
+	reg("H_c19_numref_dec", H_c19_numref_dec)
+	reg("H_c19_resolvers_utf8", H_c19_resolvers_utf8)
+	reg("H_c19_entity_name", H_c19_entity_name)
+	reg("H_c19_linkref", H_c19_linkref)
+	reg("H_c19_bytesfilter", H_c19_bytesfilter)
 }
